@@ -292,14 +292,14 @@ PENDING = "check not built yet (framework under construction; DESIGN.md lists th
 EXTRA = {
     "C20": " Round 3: parameters of one operation keep distinct identifiers and none is merged away (= R4.4).",
     "C04": " Round 3: an object occurring twice in a body is serialised twice (visited set = recursion stack); the transport forwards empty/falsy bodies unchanged.",
-    "C01": " Added: a quoted forward reference is never an operand of `|` (optional self-references are quoted as one union); the tag modules client.py imports are the ones written (grouping agreement shared with C07). RenderContext's completion of incomplete internal module paths never applies to a module of the core package. Round 3: spec text after a `#` has every line boundary removed (R15.1 comment holes, string concatenations included); the signature's parameter list is sorted required-first as the last step.",
+    "C01": " Added: a quoted forward reference is never an operand of `|` (optional self-references are quoted as one union); the tag modules client.py imports are the ones written (grouping agreement shared with C07). RenderContext's completion of incomplete internal module paths never applies to a module of the core package. Round 3: spec text after a `#` has every line boundary removed (R15.1 comment holes, string concatenations included); the signature's parameter list is sorted required-first as the last step; secondary-response arms emit a value-return only when the operation is not streaming; stored parameter names are fixed points of the sanitiser the generators re-apply.",
     "C02": " Added: colliding property names keep distinct fields (rename-until-unused pattern); the recursion context (depth override, allow_self_reference) is handed to every recursive parse call; no registration-vetoing flag is raised before the registration decision. Round 3: the type resolvers look schemas up by the exact IR name; a known name-content heuristic whose co-conjuncts change is reported again (finding identity includes them).",
     "C03": " Added: the two composition resolvers (oneOf / anyOf copies) return the same results; type-array nullability is read from the document node at every sibling site. Round 3: every discriminator value has a dispatch entry (= R14.5); every Python type chosen for a string format encodes back to a JSON string.",
     "C05": " Added: every declared media type passes the streaming classification in the loader; the handler's type-alias tests exclude what ModelVisitor's classification excludes (enums are classes). Round 3: call-local memo tables of the loader are keyed by every loop-varying input of the stored value (a shared component response keeps its own status code per reference).",
     "C06": " Added: the error raised by the transport is built from plain reads (nothing that can itself raise); the alias classes stay importable for shared cores (shared-core predicate of C11 over symbolic layouts). Round 3: the same loader memo rule; the exception registry is read-modify-write-union (alias classes of other clients survive).",
     "C07": " Added: str-enum options are compared by value; the tag grouping key is at least as coarse as the module/class names derived from a tag (character-class containment by string-shape interpretation). Round 3: every HTTPMethod member passes the path-item key filter (skip tests evaluated per member); the CLEAN strategy compares case-folded values on both sides.",
     "C08": " Added: the terminal-state transition depends only on name and state; every declared schema ends up registered (registration rules shared with C02). Round 3: parsed_schemas only grows during a load (no del/pop/clear outside the reset API), so tracker state and registry stay in step.",
-    "C09": " Added: compare-only generation compares the core for every layout in which it lies outside the client package (guard evaluated over symbolic layouts incl. textual-prefix siblings); the registry entry of a client is overwritten, never kept. Round 3: a keyed sort of an unordered collection must use a key that cannot tie (element itself, tuple ending in the element, offset of the delimited element).",
+    "C09": " Added: compare-only generation compares the core for every layout in which it lies outside the client package (guard evaluated over symbolic layouts incl. textual-prefix siblings); the registry entry of a client is overwritten, never kept. Round 3: a keyed sort of an unordered collection must use a key that cannot tie (element itself, tuple ending in the element, offset of the delimited element); compare-only generation creates the ancestor __init__.py files that direct generation creates.",
     "C10": " Added: the same diff-coverage rule; a write path built from the parent of a directory the function was given (a sibling write) is a violation.",
     "C11": " Added: the import header of the regenerated alias file covers every base class the union of codes can need; string-prefix predicates are modelled by the path algebra; the shared-core predicate must also hold for a core embedded in the first client's package (it becomes shared when a later client names it); a removal of the output package that precedes the exception emitter carries the registry of a contained core over.",
     "C12": " Added: producers of dot-relative module paths (RenderContext path helpers) may only feed add_relative_import, never an absolute import registration; the post-processor (the only other writer of generated files) never receives the runtime copies. Round 3: every module-name literal that can flow into a dynamic module expression (conditional arms, `or` operands, all definitions of the locals) passes the allow-list.",
